@@ -1,0 +1,22 @@
+//go:build verif
+
+package all
+
+// Contracts for the all plugin (C14, C01, C09), read by /verif's gvc.
+
+//@ func (g *gen) Add(name string, typs []types.Type) (r string, err error)
+//@ param typs: len=0,1,2,3
+//@ param name: classes=Ident
+
+//@ func (g *gen) Generate(typs []types.Type) (err error)
+//@ param typs: len=1
+
+//@ func (g *gen) genFuncFor(in types.Type) (err error)
+//@ emits: decls
+//@ serves: all len=1 in=typs[0]
+//@ o-sig: (predicate func($in) bool, slice []$in) (r bool)
+//@ o-requires: predicate != nil
+//@ o-ensures: [all] r <==> forall j int :: 0 <= j && j < len(slice) ==> predicate(slice[j])
+//@ o-ensures: [in-order] traceLen() <= len(slice) && forall j int :: 0 <= j && j < traceLen() ==> called(j, predicate, slice[j])
+//@ o-ensures: [stops-at-first-failure] (r ==> traceLen() == len(slice)) && (!r ==> traceLen() >= 1 && !predicate(slice[traceLen() - 1]))
+//@ o-loop: 1: invariant traceLen() == $i && forall j int :: 0 <= j && j < $i ==> predicate(slice[j]) && called(j, predicate, slice[j])
